@@ -395,7 +395,7 @@ func TestVerifC11Lab(t *testing.T) {
 		}
 	}
 	if lerr != nil {
-		emit(map[string]any{"k": "lab", "coq": "CaseLab 400 [] 0", "inconclusive": true, "nontrivial": false, "desc": "loopback bind failed: " + lerr.Error()})
+		emit(map[string]any{"k": "lab", "coq": "CaseLab 400 [] 0 0", "inconclusive": true, "nontrivial": false, "desc": "loopback bind failed: " + lerr.Error()})
 		return
 	}
 	defer lab.root.stop()
@@ -415,6 +415,12 @@ func TestVerifC11Lab(t *testing.T) {
 		cfg.Directory = scratch
 		cfg.DNSSEC = "off"
 		cfg.QnameMinLevel = 0
+		// a long per-exchange timeout (far beyond the client's budget) separates "a straggler
+		// was interrupted when its lookup ended" from "it sat out its socket timeout"
+		longNet := r.Intn(3) == 0
+		if longNet {
+			cfg.Timeout.Duration = 2 * time.Second
+		}
 		tiny := r.Intn(4) == 0
 		if tiny {
 			cfg.MaxConcurrentQueries = 1 + r.Intn(2) // forces capacity refusals
@@ -540,6 +546,17 @@ func TestVerifC11Lab(t *testing.T) {
 				}
 			}
 		}
+		// limiter quiescence: once every client has its reply no lookup is running, so every
+		// concurrency slot must come back at once (stragglers are interrupted, not waited out)
+		slotsMs := 0
+		slotStart := time.Now()
+		for len(h.resolver.maxConcurrent) > 0 || len(h.resolver.resolutionSlots) > 0 {
+			if time.Since(slotStart) > 6*time.Second {
+				break
+			}
+			time.Sleep(5 * time.Millisecond)
+		}
+		slotsMs = int(time.Since(slotStart) / time.Millisecond)
 		// goroutines drain: everything the resolver spawned for these queries ends within
 		// the per-exchange timeout and the TCP stall bound
 		left := 0
@@ -613,13 +630,19 @@ func TestVerifC11Lab(t *testing.T) {
 		if nocache {
 			k += "-nocache"
 		}
+		if longNet {
+			k += "-longnet"
+		}
+		if slotsMs > int(vC11QT/time.Millisecond) && goFail == "" {
+			goFail = fmt.Sprintf("concurrency slots still held %d ms after the last client was answered", slotsMs)
+		}
 		emit(map[string]any{
 			"k":            k,
-			"coq":          fmt.Sprintf("CaseLab %d [%s] %d", int(vC11QT/time.Millisecond), strings.Join(obs, "; "), left),
+			"coq":          fmt.Sprintf("CaseLab %d [%s] %d %d", int(vC11QT/time.Millisecond), strings.Join(obs, "; "), left, slotsMs),
 			"nontrivial":   nontrivial,
 			"go_fail":      goFail,
 			"inconclusive": inconclusive,
-			"desc":         map[string]any{"query_timeout_ms": int(vC11QT / time.Millisecond), "exchange_timeout_ms": int(vC11NetTO / time.Millisecond), "max_concurrent": cfg.MaxConcurrentQueries, "queries": desc, "goroutines_left": left},
+			"desc":         map[string]any{"query_timeout_ms": int(vC11QT / time.Millisecond), "exchange_timeout_ms": int(vC11NetTO / time.Millisecond), "max_concurrent": cfg.MaxConcurrentQueries, "queries": desc, "goroutines_left": left, "slots_held_ms_after_last_reply": slotsMs},
 		})
 		cm.Stop()
 		h.Stop()
